@@ -334,7 +334,8 @@ let wa_addr s with_flags =
        if g < 0 || g > 99 || i < 0 || i > 99 then None
        else if with_flags then
          (match split_on '.' s with
-          | [_; _; fl] when String.length fl = 2 && (fl.[0] = 'd' || fl.[0] = 'n') && (fl.[1] = 'f' || fl.[1] = 'r') -> Some (g, i)
+          | [_; _; fl] when (String.length fl = 2 || (String.length fl = 3 && fl.[2] >= '1' && fl.[2] <= '8'))
+                            && (fl.[0] = 'd' || fl.[0] = 'n') && (fl.[1] = 'f' || fl.[1] = 'r') -> Some (g, i)
           | _ -> None)
        else Some (g, i)
      with _ -> None)
@@ -414,7 +415,11 @@ let wa_spec head toks obs =
                 let sfx = "/ADDRMGR-BLOCKED" in
                 let ls = String.length sfx and lw = String.length w in
                 lw >= ls && String.sub w (lw - ls) ls = sfx in
-              if blocked then
+              let counts =
+                (try ignore (Str.search_forward (Str.regexp_string "/ADDRMGR-COUNTS:") w 0); true with Not_found -> false) in
+              if counts then
+                res := Printf.sprintf "FAIL addrmgr-counters-disagree step %d: %s - the address manager's counters (nTried-in tried table, nNew-in new table, index) no longer describe its tables; GetAddress decides by the counters" idx w
+              else if blocked then
                 res := Printf.sprintf "FAIL outbound-target-not-reached step %d: %s - ADDRMGR-BLOCKED: a call into the address manager (GetAddress / AddAddresses / NeedMoreAddresses) does not return, the manager can never dial again" idx w
               else match owed with
                 | None -> if w <> "u" then failwith "expected u"
